@@ -25,6 +25,7 @@ import GormModel.Lemmas.HeapSim
 import GormModel.Lemmas.ClauseMap
 import GormModel.Lemmas.ArgUse
 import GormModel.Lemmas.PreloadConds
+import GormModel.Gen.C06Round6
 namespace Gorm
 open Gorm.Heap
 
@@ -765,5 +766,47 @@ theorem C06_preload_args_current_tree : prefixInitOf Gen.aliasWrites = false := 
 
 open Gorm.PreConds in
 example : (argsAfter false [.atom 0, .atom 3, .atom 0, .atom 7] 2 [.atom 9]).1 = [.atom 0, .atom 3, .atom 0, .atom 7] := by decide +kernel
+
+/-! ## round 6 — where a transaction is stored: Begin must own its statement for EVERY clone value of its receiver
+
+  Regenerated by extract/gen_c06y.go → Gen/C06Round6.lean.  `Session` copies the statement only when its literal sets one
+  of the fields of `sessionCloneGuard`; otherwise the result SHARES the receiver's statement (safe for a handle — clone 2
+  copies on the next chain call — but not for a method that then WRITES into that statement).  Begin is called on handles
+  (getInstance() hands out a fresh statement) and on clone-0 values — a chain in progress, the handle Connection passes to
+  its block, a finisher's result — where getInstance() returns the receiver itself (`C06_getInstance_returns`): there only
+  the clone forced by the Session literal keeps the `*sql.Tx` out of the originating chain (seed m17). -/
+
+/-- methods whose ConnPool store is not a derivation: they finish / mark a transaction handle in place (txControl), pin
+    the connection of the block's own handle (Connection) or run behind Session's own clone guard (Session) -/
+def poolStoreInPlace : List String := txControl ++ ["Connection", "Session"]
+
+/-- Session has exactly one `tx.Statement = tx.Statement.clone()`, guarded by Context / PrepareStmt / SkipHooks -/
+theorem C06_session_clone_guard :
+    Gen.sessionCloneStores = 1 ∧ Gen.sessionCloneGuard = ["Context", "PrepareStmt", "SkipHooks"] := by decide +kernel
+
+/-- every Session literal written in Begin sets a field that forces the statement clone (and Begin has one) -/
+theorem C06_begin_forces_statement_clone :
+    (∃ c ∈ Gen.sessionCalls, c.1 = "Begin") ∧
+    ∀ c ∈ Gen.sessionCalls, c.1 = "Begin" → ∃ f ∈ c.2.2, f ∈ Gen.sessionCloneGuard := by decide +kernel
+
+/-- every method of *DB that stores into `X.Statement.ConnPool` — besides the in-place ones — stores into a local X that
+    is never the receiver and whose every origin is a Session call forcing the clone: the pool / transaction is written
+    into a statement no other chain can hold, whatever the receiver's clone value.  Non-vacuous: Begin stores. -/
+theorem C06_connpool_stores_into_private_statement :
+    (∃ s ∈ Gen.connPoolStores, s.1 = "Begin") ∧
+    ∀ s ∈ Gen.connPoolStores, s.1 ∉ poolStoreInPlace →
+      s.2.1 = false ∧ s.2.2 ≠ [] ∧ ∀ o ∈ s.2.2, ∃ f ∈ o, f ∈ Gen.sessionCloneGuard := by decide +kernel
+
+/-- Connection pins the connection into the statement getInstance() hands out — private whenever the receiver is a
+    handle (`C06_getInstance_returns`: fresh for clone 1 / 2) — never into the receiver's own statement and never into
+    the result of a bare Session (which shares the handle's statement) -/
+theorem C06_connection_pins_private_statement :
+    (∃ s ∈ Gen.connPoolStores, s.1 = "Connection") ∧
+    ∀ s ∈ Gen.connPoolStores, s.1 = "Connection" → s.2.1 = false ∧ s.2.2 = [["?db.getInstance()"]] := by decide +kernel
+
+/-- the shape of seed m17 — Begin's literal reduced to `{NewDB: …}` — fails the obligation -/
+theorem C06_begin_shared_statement_counterexample :
+    ¬ (∀ s ∈ [("Begin", false, [["NewDB"]])], s.1 ∉ poolStoreInPlace →
+        s.2.1 = false ∧ s.2.2 ≠ [] ∧ ∀ o ∈ s.2.2, ∃ f ∈ o, f ∈ Gen.sessionCloneGuard) := by decide +kernel
 
 end Gorm
